@@ -100,5 +100,20 @@ Proof. vm_compute. reflexivity. Qed.
 Example ex_qualified : same_strs (map qname_string (extract_tables_qualified em [ast_stmt ex_stmt])) ["base"; "s1.t4"; "cte1"; "t2"] = true
   /\ In (mkQ "s1" "" "t4") (extract_tables_qualified em [ast_stmt ex_stmt]).
 Proof. vm_compute. tauto. Qed.
+(* FROM t1, t2 JOIN t3 ... JOIN t4: the join list attaches to the LAST item of the comma list *)
+Definition ex_commas : mstmt :=
+  MSelect CNil (ICons (MStar "") "" INil)
+    (TCons (TName (mkT "t1" eq_refl) "") (TCons (TName (mkT "t2" eq_refl) "zal1") TNil))
+    (JCons "INNER" (TName (mkT "t3" eq_refl) "") ONone (JCons "CROSS" (TName (mkT "t4" eq_refl) "") ONone JNil))
+    ONone ENil ONone ENil.
+Example ex_join_left_is_last :
+  map q_name (flat_map (kids_of SLeft) (kids_of SJoins (ast_stmt ex_commas))) = ["t2"; "(t2_with_1_joins)"]
+  /\ same_strs (extract_tables em [ast_stmt ex_commas]) ["t1"; "t2"; "t3"; "t4"] = true.
+Proof. vm_compute. tauto. Qed.
+(* a niladic keyword function is prescribed as a bare FunctionCall: a function, never a column *)
+Example ex_niladic :
+  extract_columns em [ast_stmt (MSelect CNil (ICons (MNiladic (mkName "CURRENT_DATE" eq_refl)) "" INil) TNil JNil ONone ENil ONone ENil)] = []
+  /\ extract_functions em [ast_stmt (MSelect CNil (ICons (MNiladic (mkName "CURRENT_DATE" eq_refl)) "" INil) TNil JNil ONone ENil ONone ENil)] = ["CURRENT_DATE"].
+Proof. vm_compute. tauto. Qed.
 Example ex_pinned_cost : visits_pinned em (union_chain 5) = 219 /\ visits em [union_chain 5] = 17.
 Proof. vm_compute. tauto. Qed.
